@@ -2,6 +2,7 @@ import PMV.Lemmas.ReduceLane2
 import PMV.Lemmas.ReduceSort
 import PMV.Lemmas.ReduceArr
 import PMV.Lemmas.ReduceAxis
+import PMV.Lemmas.Bcast
 /-
   C13 — reductions and ordering operations see only unmasked elements.
   Property theorems.  Core Lean; no Mathlib.  Helper developments: PMV/Lemmas/Reduce*.lean.
@@ -748,6 +749,122 @@ theorem median_accepts (maxval dflt : Int) (a : Arr (Cell Int)) (axis : Axis) (h
   repeat' split
   all_goals exact ⟨_, rfl⟩
 
+/-- argmax / argmin return a result exactly for a legal axis argument on an object that is not of
+    shape (), the axis being an integer or None (NumPy's `argmax` takes no tuple) unless the object is
+    zero-sized (then NumPy is never reached) -/
+theorem argmax_accepts_iff (minval : Int) (a : Arr (Cell Int)) (axis : Axis) :
+    (∃ r, argmaxCode minval a axis = .ok r) ↔
+      LegalAxis a.shape.length axis ∧ a.shape ≠ [] ∧ (size a.shape = 0 ∨ argAxisOk axis = true) := by
+  rw [← checkAxis_iff]
+  unfold argmaxCode
+  cases hc : checkAxis a.shape.length axis
+  · simp
+  · simp only [Bool.not_true, Bool.false_eq_true, if_false, true_and]
+    by_cases hsh : a.shape = []
+    · simp [hsh]
+    · have : (a.shape == []) = false := by simpa using hsh
+      simp only [this, Bool.false_eq_true, if_false]
+      by_cases hs : size a.shape = 0
+      · simp [hs, hsh]
+      · have : (size a.shape == 0) = false := by simpa using hs
+        simp only [this, Bool.false_eq_true, if_false]
+        cases hk : argAxisOk axis
+        · simp [hs]
+        · simp only [Bool.not_true, Bool.false_eq_true, if_false]
+          refine ⟨fun _ => ⟨hsh, Or.inr trivial⟩, fun _ => ?_⟩
+          repeat' split
+          all_goals exact ⟨_, rfl⟩
+
+theorem argmin_accepts_iff (maxval : Int) (a : Arr (Cell Int)) (axis : Axis) :
+    (∃ r, argminCode maxval a axis = .ok r) ↔
+      LegalAxis a.shape.length axis ∧ a.shape ≠ [] ∧ (size a.shape = 0 ∨ argAxisOk axis = true) := by
+  rw [← checkAxis_iff]
+  unfold argminCode
+  cases hc : checkAxis a.shape.length axis
+  · simp
+  · simp only [Bool.not_true, Bool.false_eq_true, if_false, true_and]
+    by_cases hsh : a.shape = []
+    · simp [hsh]
+    · have : (a.shape == []) = false := by simpa using hsh
+      simp only [this, Bool.false_eq_true, if_false]
+      by_cases hs : size a.shape = 0
+      · simp [hs, hsh]
+      · have : (size a.shape == 0) = false := by simpa using hs
+        simp only [this, Bool.false_eq_true, if_false]
+        cases hk : argAxisOk axis
+        · simp [hs]
+        · simp only [Bool.not_true, Bool.false_eq_true, if_false]
+          refine ⟨fun _ => ⟨hsh, Or.inr trivial⟩, fun _ => ?_⟩
+          repeat' split
+          all_goals exact ⟨_, rfl⟩
+
+/-- what is rejected, and how: shape () ⇒ ValueError, tuple axis ⇒ TypeError (NumPy's) -/
+theorem argmax_scalar_rejected (minval : Int) (a : Arr (Cell Int)) (axis : Axis)
+    (hl : LegalAxis a.shape.length axis) (h : a.shape = []) : argmaxCode minval a axis = .error .value := by
+  rw [← checkAxis_iff] at hl; unfold argmaxCode
+  rw [hl]; simp [h]
+
+/-- sort returns a result exactly for a legal axis argument that is an integer or None (or any
+    legal one when the object is zero-sized) -/
+theorem sort_accepts_iff (maxval : Int) (rep : Rep) (a : Arr (Cell Int)) (axis : Axis) :
+    (∃ r, sortCode maxval rep a axis = .ok r) ↔
+      LegalAxis a.shape.length axis ∧ (size a.shape = 0 ∨ argAxisOk axis = true) := by
+  rw [← checkAxis_iff]
+  unfold sortCode
+  cases hc : checkAxis a.shape.length axis
+  · simp
+  · simp only [Bool.not_true, Bool.false_eq_true, if_false, true_and]
+    by_cases hs : size a.shape = 0
+    · simp [hs]
+    · have : (size a.shape == 0) = false := by simpa using hs
+      simp only [this, Bool.false_eq_true, if_false]
+      cases axis with
+      | none => simp [argAxisOk]
+      | int ax => simp [argAxisOk]
+      | tup l => simp [argAxisOk, hs]
+
+/-- `any` / `all` rely on NumPy's own validation: they return a result exactly for a shape-() object
+    (the axis is not looked at) or a legal axis argument; an out-of-range entry gives AxisError
+    (IndexError), a repeated axis ValueError -/
+theorem any_accepts_iff (rep : Rep) (a : Arr (Cell Bool)) (axis : Axis) :
+    (∃ r, anyCode rep a axis = .ok r) ↔ a.shape = [] ∨ LegalAxis a.shape.length axis := by
+  rw [← npCheckAxis_ok_iff]
+  unfold anyCode
+  by_cases hsh : a.shape = []
+  · simp [hsh]
+  · have : (a.shape == []) = false := by simpa using hsh
+    simp only [this, Bool.false_eq_true, if_false, hsh, false_or]
+    cases hc : npCheckAxis a.shape.length axis with
+    | ok u => simp
+    | error e => simp
+
+theorem all_accepts_iff (rep : Rep) (a : Arr (Cell Bool)) (axis : Axis) :
+    (∃ r, allCode rep a axis = .ok r) ↔ a.shape = [] ∨ LegalAxis a.shape.length axis := by
+  rw [← npCheckAxis_ok_iff]
+  unfold allCode
+  by_cases hsh : a.shape = []
+  · simp [hsh]
+  · have : (a.shape == []) = false := by simpa using hsh
+    simp only [this, Bool.false_eq_true, if_false, hsh, false_or]
+    cases hc : npCheckAxis a.shape.length axis with
+    | ok u => simp
+    | error e => simp
+
+theorem any_rejects_out_of_range (rep : Rep) (a : Arr (Cell Bool)) (l : List Int) (hsh : a.shape ≠ [])
+    (h : ∃ x ∈ l, ¬ InRange a.shape.length x) : anyCode rep a (.tup l) = .error .index := by
+  have := (npCheckAxis_index_iff a.shape.length l).2 h
+  unfold anyCode
+  have hs : (a.shape == []) = false := by simpa using hsh
+  simp [hs, this]
+
+theorem any_rejects_repeated (rep : Rep) (a : Arr (Cell Bool)) (l : List Int) (hsh : a.shape ≠ [])
+    (h1 : ∀ x ∈ l, InRange a.shape.length x) (h2 : ¬ (l.map (normAx a.shape.length)).Nodup) :
+    anyCode rep a (.tup l) = .error .value := by
+  have := (npCheckAxis_value_iff a.shape.length l).2 ⟨h1, h2⟩
+  unfold anyCode
+  have hs : (a.shape == []) = false := by simpa using hsh
+  simp [hs, this]
+
 /-- legal axis arguments name pairwise distinct in-range axes -/
 theorem legal_axes_distinct (rank : Nat) (axis : Axis) (h : LegalAxis rank axis) :
     (normAxes rank axis).Nodup ∧ ∀ k ∈ normAxes rank axis, k < rank := normAxes_legal rank axis h
@@ -934,5 +1051,149 @@ theorem any_scalar_shape (rep : Rep) (a : Arr (Cell Bool)) (axis : Axis) (h : a.
   · show obs ((a.get []).v, (a.get []).m) = _
     obtain ⟨v, m⟩ := a.get []
     cases m <;> cases v <;> rfl
+
+/-! ### `builtins=True`, units, operands of different shapes -/
+
+/-- a Python value is returned only for a single unmasked, unit-less element, and it is that element -/
+theorem builtin_py (hasUnits mg : Bool) (r : Arr (Out β)) (v : β) (h : asBuiltin hasUnits mg r = .py v) :
+    r.shape = [] ∧ obs (r.get []) = some v ∧ hasUnits = false := by
+  unfold asBuiltin at h
+  split at h
+  · cases h
+  · split at h
+    · cases h
+    · rename_i hsh
+      have hsh' : r.shape = [] := by simpa using hsh
+      cases hm : (r.get []).2
+      · rw [hm] at h
+        simp only [Bool.false_eq_true, if_false] at h
+        cases hu : hasUnits
+        · rw [hu] at h
+          simp only [Bool.false_eq_true, if_false] at h
+          injection h with h
+          refine ⟨hsh', ?_, rfl⟩
+          unfold obs; rw [hm, h]
+        · rw [hu] at h; simp at h
+      · rw [hm] at h
+        simp only [if_true] at h
+        split at h <;> cases h
+
+/-- otherwise the object itself comes back, unchanged … -/
+theorem builtin_obj (hasUnits mg : Bool) (r r' : Arr (Out β)) (h : asBuiltin hasUnits mg r = .obj r') :
+    r'.shape = r.shape ∧ r'.get = r.get := by
+  unfold asBuiltin at h
+  repeat' split at h
+  all_goals first | (cases h; exact ⟨rfl, rfl⟩) | cases h
+
+/-- … or the caller's `masked=` value, and that only when there is nothing unmasked to report -/
+theorem builtin_maskedArg (hasUnits mg : Bool) (r : Arr (Out β)) (h : asBuiltin hasUnits mg r = .maskedArg) :
+    size r.shape = 0 ∨ (r.shape = [] ∧ obs (r.get []) = none ∧ mg = true) := by
+  unfold asBuiltin at h
+  split at h
+  · rename_i hs; left; simpa using hs
+  · split at h
+    · cases h
+    · rename_i hsh
+      right
+      have hsh' : r.shape = [] := by simpa using hsh
+      cases hm : (r.get []).2
+      · rw [hm] at h
+        simp only [Bool.false_eq_true, if_false] at h
+        split at h <;> cases h
+      · rw [hm] at h
+        simp only [if_true] at h
+        cases hg : mg
+        · rw [hg] at h; simp at h
+        · exact ⟨hsh', by unfold obs; rw [hm], rfl⟩
+
+/-- and a single unmasked unit-less element always becomes a Python value -/
+theorem builtin_single (mg : Bool) (r : Arr (Out β)) (v : β) (hs : r.shape = [])
+    (hv : obs (r.get []) = some v) : asBuiltin false mg r = .py v := by
+  unfold asBuiltin
+  have h1 : (size r.shape == 0) = false := by rw [hs]; rfl
+  have h2 : (r.shape != []) = false := by rw [hs]; rfl
+  unfold obs at hv
+  cases hm : (r.get []).2
+  · rw [hm] at hv
+    simp only [Option.some.injEq] at hv
+    simp [h1, h2, hm, hv]
+  · rw [hm] at hv; cases hv
+
+/-- units: kept by the value reductions, none for index and Boolean results -/
+theorem units_spec {U : Type} (u : Option U) :
+    resultUnits .value u = u ∧ resultUnits .index u = none ∧ resultUnits .bool u = none := ⟨rfl, rfl, rfl⟩
+
+/-- `Scalar.maximum` on operands of any shapes: rejected (ValueError) exactly when there is no operand
+    or the shapes do not broadcast; otherwise the result has NumPy's broadcast shape and every element is
+    the maximum of the unmasked candidates found at the projected indices -/
+theorem maximum_arr_spec (args : List (Arr (Cell Int))) (r : Arr (Cell Int))
+    (h : maximumArr maximumCode args = .ok r) :
+    args ≠ [] ∧ bcastAll (args.map (·.shape)) = some r.shape ∧
+    ∀ i, cellObs (r.get i) = specRed npMax (args.map fun a => a.get (bidx a.shape i)) := by
+  unfold maximumArr at h
+  cases args with
+  | nil => cases h
+  | cons a as =>
+    simp only at h
+    split at h
+    · cases h
+    · rename_i out hout
+      injection h with h; subst h
+      refine ⟨by simp, hout, ?_⟩
+      intro i
+      have := maximum_spec (a.get (bidx a.shape i)) (as.map fun b => b.get (bidx b.shape i))
+      simp only [Arr.bto, List.map_cons] at this ⊢
+      cases hc : maximumCode (a.get (bidx a.shape i) :: as.map fun b => b.get (bidx b.shape i)) with
+      | none => rw [hc] at this; cases this
+      | some c =>
+        rw [hc] at this
+        simp only [Option.map_some, Option.some.injEq] at this
+        exact this
+
+theorem minimum_arr_spec (args : List (Arr (Cell Int))) (r : Arr (Cell Int))
+    (h : maximumArr minimumCode args = .ok r) :
+    args ≠ [] ∧ bcastAll (args.map (·.shape)) = some r.shape ∧
+    ∀ i, cellObs (r.get i) = specRed npMin (args.map fun a => a.get (bidx a.shape i)) := by
+  unfold maximumArr at h
+  cases args with
+  | nil => cases h
+  | cons a as =>
+    simp only at h
+    split at h
+    · cases h
+    · rename_i out hout
+      injection h with h; subst h
+      refine ⟨by simp, hout, ?_⟩
+      intro i
+      have := minimum_spec (a.get (bidx a.shape i)) (as.map fun b => b.get (bidx b.shape i))
+      simp only [Arr.bto, List.map_cons] at this ⊢
+      cases hc : minimumCode (a.get (bidx a.shape i) :: as.map fun b => b.get (bidx b.shape i)) with
+      | none => rw [hc] at this; cases this
+      | some c =>
+        rw [hc] at this
+        simp only [Option.map_some, Option.some.injEq] at this
+        exact this
+
+theorem maximum_arr_rejects_iff (step : List (Cell Int) → Option (Cell Int)) (args : List (Arr (Cell Int))) :
+    maximumArr step args = .error .value ↔ args = [] ∨ bcastAll (args.map (·.shape)) = none := by
+  unfold maximumArr
+  cases args with
+  | nil => simp
+  | cons a as =>
+    simp only
+    cases hb : bcastAll ((a :: as).map (·.shape)) <;> simp
+
+/-- two operands: the common shape is NumPy's broadcast of the two, and a valid result index projects
+    onto valid indices of both operands -/
+theorem bcastAll_pair (s t : Shape) : bcastAll [s, t] = bcast s t := by
+  simp [bcastAll, bcast_nil_right]
+
+theorem maximum2_indices_valid (s t out : Shape) (i : Index) (h : bcastAll [s, t] = some out)
+    (hv : Valid out i) : Valid s (bidx s i) ∧ Valid t (bidx t i) := by
+  rw [bcastAll_pair] at h
+  exact ⟨bidx_valid h hv, bidx_valid_right h hv⟩
+
+example : bcastAll [[2, 1], [3], []] = some [2, 3] := by decide
+example : bcastAll [[2], [3]] = none := by decide
 
 end PMV.Reduce
